@@ -73,3 +73,13 @@ add("C17",
     "run, compared with the model (results, failure lists, messages) and judged by inspect.signature.bind on every admitted shape.",
     "Guards: positional / defaulted / *args / **kwargs parameters (the statement's list); required keyword-only parameters of an implementation are outside it.",
     "Lean 4 proof (iff over all call shapes, result/error-list characterisation) + exhaustive grid correspondence + inspect.bind oracle", "6/C17")
+add("C18",
+    "Theorems over EVERY code object laid out as CPython lays them out (any number of positional-only / positional parameters, defaults, keyword-only "
+    "parameters, *args, **kw, locals; any number of dropped leading names): C18_info (fromFunction reports exactly the positional names in order, the required "
+    "ones, the defaults of the optional ones, the actual * / ** names or None), C18_method / C18_method_star (a bound method loses exactly its leading self — "
+    "and nothing when self is absorbed by *args), C18_string (getSignatureString renders exactly that signature), kernel-checked witnesses that the two earlier "
+    "versions violated the statement (C18_pinned_violates, C18_kwonlyFixed_violates). Each run builds the complete product of signature shapes for real, feeds "
+    "the REAL code objects' fields to the model, compares description and string on both twins and judges them against inspect.signature; function attributes "
+    "must come back as tagged values.",
+    "Guards: parameter names distinct (Python enforces it); CPython's co_varnames layout (Layout) is assumed and checked on every generated function through the model.",
+    "Lean 4 proof (index arithmetic over the code-object layout) + correspondence on real code objects + inspect.signature oracle", "6/C18")
